@@ -439,6 +439,8 @@ func genStmt(rng *rand.Rand) refStmt {
 
 	// HAVING
 	having := ""
+	var hvToks []srcTok
+	hvAfterWith := false
 	if aggregate && rng.Intn(2) == 0 {
 		var lhs [][]srcTok
 		for _, a := range aggAliases {
@@ -460,8 +462,12 @@ func genStmt(rng *rand.Rand) refStmt {
 		if !ok {
 			c = append(append([]srcTok{}, lhs[0]...), opT("gt"), numT("16"))
 		}
-		add(kwT("HAVING"))
-		add(c...)
+		// HAVING is written in front of WITH (...) or behind it (the repository's own e2e tests use both orders)
+		hvToks = append([]srcTok{kwT("HAVING")}, c...)
+		hvAfterWith = rng.Intn(3) == 0
+		if !hvAfterWith {
+			add(hvToks...)
+		}
 		having = tokJoin(c, true)
 		tag("having")
 	}
@@ -506,6 +512,12 @@ func genStmt(rng *rand.Rand) refStmt {
 		}
 		add(opT("rparen"))
 		tag("with-options")
+		if hvAfterWith {
+			tag("having-after-with")
+		}
+	}
+	if hvAfterWith {
+		add(hvToks...)
 	}
 	exp("with", hx(ts), itoa(unit), itoa(ooo), itoa(late), itoa(idle))
 
